@@ -40,7 +40,8 @@ INVS = ['AgreeOrFail', 'BothOrNeither', 'NoDowngrade', 'FirstClientPref',
 
 
 def write_cfg(name, invariants=(), **consts):
-    d = dict(KexType='"dh"', MaxEdits=1, VaryCats='{}', EditListMode='"all"',
+    d = dict(KexType='"dh"', MaxEdits=1, VaryCats='{}', VaryMode='"product"',
+             EditListMode='"all"',
              TrustAllSet='{FALSE}', HashOmit='{}', PreferServer='FALSE',
              EditMsgs=ALL_MSGS, EditFields=ALL_FIELDS, Emit='FALSE')
     d.update(consts)
@@ -75,6 +76,8 @@ def emit_cases(ctx, label, **consts):
             cases.append(dict(c=v[1], s=v[2], trustall=v[3], edits=v[4],
                               done_c=v[5], done_s=v[6], chosen=v[7]))
     ctx.require(cases, f'no cases printed by TLC for {label}')
+    # vacuity: handshakes complete, and edited ones fail, in the model
+    ctx.require(any(c['done_c'] for c in cases), f'{label}: nothing completes')
     return cases
 
 
@@ -112,14 +115,14 @@ def main(ctx):
     H.cache_rsa_transient(True)
     quick = ctx.tier == 'quick'
     rnd = random.Random(ctx.seed + 3)
-    W = 8
+    W = 4 if quick else 8
 
     # ---- 1. design check -------------------------------------------------
+    elm = '"few"' if quick else '"all"'
     tlc_run(ctx, 'dh 1 edit, enc lists vary', KexType='"dh"',
-            VaryCats='{"enc"}', workers=W)
+            VaryCats='{"enc"}', EditListMode=elm, workers=W)
     tlc_run(ctx, 'gex 1 edit, kex lists vary', KexType='"gex"',
-            VaryCats='{"kex"}', EditListMode='"few"' if quick else '"all"',
-            workers=W)
+            VaryCats='{"kex"}', EditListMode=elm, workers=W)
     tlc_run(ctx, 'rsa 1 edit, mac lists vary, trust-all too',
             KexType='"rsa"', VaryCats='{"mac"}', EditListMode='"few"',
             TrustAllSet='{FALSE, TRUE}', workers=W)
@@ -152,8 +155,6 @@ def main(ctx):
             KexType='"dh"', PreferServer='TRUE', MaxEdits=0,
             VaryCats='{"enc"}', expect='NoDowngrade',
             invariants=['NoDowngrade'], workers=W)
-    tlc_run(ctx, 'witness: a handshake can complete', MaxEdits=0,
-            expect='NeverDone', invariants=['NeverDone'], workers=W)
 
     # ---- 2. replay of edited handshakes ----------------------------------
     avail = H.available_kex()
@@ -345,12 +346,17 @@ def main(ctx):
                     run_command=False)
 
     # ---- 3. every pair of preference lists --------------------------------
+    one = emit_cases(ctx, 'pairs kex | hostkey | cmp (one category at a time)',
+                     MaxEdits=0, VaryCats='{"kex", "hostkey", "cmp"}',
+                     VaryMode='"oneof"')
+
+    def varies(case, cat):
+        return case['c'][cat] != ['strong'] or case['s'][cat] != ['strong']
     pair_tables = [
-        ('kex', emit_cases(ctx, 'pairs kex', MaxEdits=0,
-                           VaryCats='{"kex"}')),
-        ('hostkey', emit_cases(ctx, 'pairs hostkey', MaxEdits=0,
-                               VaryCats='{"hostkey"}')),
-        ('cmp', emit_cases(ctx, 'pairs cmp', MaxEdits=0, VaryCats='{"cmp"}')),
+        ('kex', [c for c in one if varies(c, 'kex') or not
+                 any(varies(c, k) for k in ('hostkey', 'cmp'))]),
+        ('hostkey', [c for c in one if varies(c, 'hostkey')]),
+        ('cmp', [c for c in one if varies(c, 'cmp')]),
         ('enc+mac', emit_cases(ctx, 'pairs enc x mac', MaxEdits=0,
                                VaryCats='{"enc", "mac"}')),
     ]
